@@ -126,7 +126,13 @@ pub fn spin_until(limit: u64, mut cond: impl FnMut() -> bool) -> bool {
         if i > limit {
             return false;
         }
-        spin_yield();
+        if !cfg!(miri) && i > 32 {
+            // back off so that an oversubscribed machine gives the peer the CPU
+            thread::sleep(std::time::Duration::from_micros(if i > 2000 { 200 } else { 10 }));
+            i += 200;
+        } else {
+            spin_yield();
+        }
     }
     true
 }
@@ -147,6 +153,18 @@ pub struct Rendezvous(AtomicU64);
 impl Rendezvous {
     pub fn meet(&self, parties: u64) {
         self.0.fetch_add(1, Relaxed);
-        spin_until(spin_limit(), || self.0.load(Relaxed) >= parties);
+        // tight spin (no sleeping back-off): the point is to leave at the same instant
+        let mut i = 0u64;
+        while self.0.load(Relaxed) < parties {
+            i += 1;
+            if i > spin_limit() {
+                break;
+            }
+            if i % 128 == 0 {
+                thread::yield_now();
+            } else {
+                std::hint::spin_loop();
+            }
+        }
     }
 }
